@@ -362,12 +362,14 @@ mut("C12", "inflow-take-accepts-one-byte-more", FL,
     "func (f *inflow) take(n uint32) bool {\n	if n > uint32(f.avail) {", "func (f *inflow) take(n uint32) bool {\n	if n > uint32(f.avail)+1 {")
 mut("C12", "takeinflows-ignores-conn-window", FL,
     "	if n > uint32(f1.avail) || n > uint32(f2.avail) {", "	if n > uint32(f2.avail) {")
+mut("C12", "takeinflows-stream-window-off-by-one", FL,
+    "	if n > uint32(f1.avail) || n > uint32(f2.avail) {", "	if n > uint32(f1.avail) || n > uint32(f2.avail)+1 {")
 mut("C12", "inflow-min-refresh-64k", FL,
     "const inflowMinRefresh = 4 << 10", "const inflowMinRefresh = 64 << 10")
 mut("C12", "transport-await-flow-ignores-max-frame-size", TR,
     "			if take > int32(cc.maxFrameSize) {\n				take = int32(cc.maxFrameSize)\n			}\n", "")
 mut("C12", "transport-initial-window-only-for-new-streams", TR,
-    "			for _, cs := range cc.streams {\n				cs.flow.add(delta)\n			}\n", "")
+    "			for _, cs := range cc.streams {\n				cs.flow.add(delta)\n			}\n", "			_ = delta\n")
 mut("C12", "transport-initial-window-delta-wrong-sign", TR,
     "			delta := int32(s.Val) - int32(cc.initialWindowSize)", "			delta := int32(cc.initialWindowSize) - int32(s.Val)")
 mut("C12", "transport-padding-not-refunded", TR,
@@ -408,6 +410,56 @@ mut("C06", "h2-metadata-on-server-context", "pkg/proxyserver/proxyserver.go",
     "		ctx, md := metadata.NewContext(server.ctx)\n		md.ClientHelloRecord = rec", "		if server.h2ctx == nil {\n			server.h2ctx, server.h2md = metadata.NewContext(server.ctx)\n		}\n		ctx, md := server.h2ctx, server.h2md\n		md.ClientHelloRecord = rec")
 mut("C06", "h2-metadata-on-server-context", "pkg/proxyserver/proxyserver.go",
     "	// required, mutex for initiating the server\n	mu sync.Mutex", "	// required, mutex for initiating the server\n	mu sync.Mutex\n\n	h2ctx context.Context\n	h2md  *metadata.Metadata")
+
+# ---- C11
+mut("C11", "undo-D5", "fingerproxy.go",
+    "	svr.HTTP2Server.IdleTimeout = parseHTTPIdleTimeout()\n", "")
+mut("C11", "handshake-without-deadline", "pkg/proxyserver/proxyserver.go",
+    "	ctx, cancel := context.WithTimeout(server.ctx, server.TLSHandshakeTimeout)\n	defer cancel()\n	return tlsConn.HandshakeContext(ctx)", "	return tlsConn.HandshakeContext(server.ctx)")
+mut("C11", "h1-done-never-fires", "pkg/hack/tls_clienthello_conn.go",
+    "	c.Done()\n	return c.Conn.Close()", "	return c.Conn.Close()")
+mut("C11", "conn-not-closed-on-handshake-failure", "pkg/proxyserver/proxyserver.go",
+    "	defer recover()\n	defer conn.Close()\n", "	defer recover()\n")
+mut("C11", "conn-not-closed-on-handshake-failure", "pkg/proxyserver/proxyserver.go",
+    "	tlsConn := tls.Server(hijackedConn, server.TLSConfig)\n	defer tlsConn.Close()\n", "	tlsConn := tls.Server(hijackedConn, server.TLSConfig)\n	closeTLS := true\n	defer func() {\n		if closeTLS {\n			tlsConn.Close()\n		}\n	}()\n")
+mut("C11", "conn-not-closed-on-handshake-failure", "pkg/proxyserver/proxyserver.go",
+    '		server.metricsRequestsTotalInc("0", "")\n		return\n	}\n\n	// client hello stored', '		server.metricsRequestsTotalInc("0", "")\n		closeTLS = isNetworkOrClientError(err)\n		return\n	}\n\n	// client hello stored')
+mut("C11", "idle-timeout-doubled-on-h1", "fingerproxy.go",
+    "	svr.HTTPServer.IdleTimeout = parseHTTPIdleTimeout()\n", "	svr.HTTPServer.IdleTimeout = 20 * parseHTTPIdleTimeout()\n")
+mut("C11", "handshake-timeout-ignored-flag", "fingerproxy.go",
+    "	svr.TLSHandshakeTimeout = parseTLSHandshakeTimeout()\n", "")
+mut("C11", "h2-conn-left-open-after-serve", "pkg/proxyserver/proxyserver.go",
+    "	server.metricsRequestsTotalInc(\"1\", cs.NegotiatedProtocol)\n}", "	server.metricsRequestsTotalInc(\"1\", cs.NegotiatedProtocol)\n	if cs.NegotiatedProtocol == \"h2\" {\n		select {}\n	}\n}")
+
+# ---- C17
+PS17, CL17 = "pkg/proxyserver/proxyserver.go", "pkg/hack/channel_listener.go"
+SHUT17 = "		server.HTTPServer.Shutdown(context.Background())\n		ln.Close()\n"
+mut("C17", "shutdown-goroutine-never-closes-listener", PS17,
+    SHUT17, "		server.HTTPServer.Shutdown(context.Background())\n")
+mut("C17", "inshutdown-flag-never-set", PS17,
+    "		server.inShutdown.Store(true)\n", "")
+mut("C17", "inshutdown-flag-set-after-listener-closed", PS17,
+    "		server.inShutdown.Store(true)\n" + SHUT17, SHUT17 + "		server.inShutdown.Store(true)\n")
+mut("C17", "serve-returns-nil-on-shutdown", PS17,
+    "			if server.shuttingDown() {\n				return http.ErrServerClosed\n			}", "			if server.shuttingDown() {\n				return nil\n			}")
+mut("C17", "close-instead-of-graceful-shutdown", PS17,
+    SHUT17, "		server.HTTPServer.Close()\n		ln.Close()\n")
+mut("C17", "http1-shutdown-skipped", PS17,
+    SHUT17, "		ln.Close()\n")
+mut("C17", "listener-closed-before-http1-drained", PS17,
+    SHUT17, "		ln.Close()\n		server.HTTPServer.Shutdown(context.Background())\n")
+mut("C17", "shutdown-gives-up-after-200ms", PS17,
+    SHUT17, "		sctx, scancel := context.WithTimeout(context.Background(), 200*time.Millisecond)\n		defer scancel()\n		server.HTTPServer.Shutdown(sctx)\n		ln.Close()\n")
+mut("C17", "inner-http-server-close-does-not-cancel", PS17,
+    "		if !server.shuttingDown() {\n			server.ctxCancel()\n		}\n", "")
+mut("C17", "channel-listener-close-is-a-noop", CL17,
+    "	ln.stop()\n	return nil", "	return nil")
+mut("C17", "cancelled-before-serve-returns-context-error", PS17,
+    "	// setup\n	server.setupServe()\n", "	if server.ctx != nil && server.ctx.Err() != nil {\n		return server.ctx.Err()\n	}\n\n	// setup\n	server.setupServe()\n")
+mut("C17", "connections-after-cancel-still-served-h2", PS17,
+    "	ctx, cancel := context.WithTimeout(server.ctx, server.TLSHandshakeTimeout)", "	ctx, cancel := context.WithTimeout(context.Background(), server.TLSHandshakeTimeout)")
+mut("C17", "connections-after-cancel-still-served-h2", PS17,
+    "		ctx, md := metadata.NewContext(server.ctx)\n", "		ctx, md := metadata.NewContext(context.Background())\n")
 
 def run(argv):
     props = [a for a in argv if a.startswith("C")]
